@@ -8,6 +8,7 @@ import (
 	"strings"
 	"sync"
 	"sync/atomic"
+	"time"
 
 	bexpr "github.com/hashicorp/go-bexpr"
 	"github.com/hashicorp/go-bexpr/grammar"
@@ -208,9 +209,8 @@ func c13PanickingHooksAndCrowds(r *Run) {
 			wg.Add(1)
 			go func(g int) { defer wg.Done(); outs[g] = evalObs(ev2, d) }(g)
 		}
-		for atomic.LoadInt32(&inFlightN) < 300 {
-			// wait until all are parked
-			runtimeGosched()
+		for deadline := time.Now().Add(5 * time.Second); atomic.LoadInt32(&inFlightN) < 300 && time.Now().Before(deadline); {
+			runtimeGosched() // wait until all are parked (or until it is clear that some never will be)
 		}
 		close(release)
 		wg.Wait()
@@ -321,14 +321,19 @@ func c18TextBudgetRunTogether(r *Run) {
 		first  string
 		budget uint64
 		second string
-	}{{"Value == 1", 5000, "Value == 15000"}, {"Value == 1", 500, "Value == 1500"}, {"Value == 15", 0, "Value == 150"}, {"Value != 1", 1000000, "Value != 11000000"}, {"Value == 1500", 0, "Value == 1"}, {"Value == 1 ", 5000, "Value == 1 5000"}} {
+	}{{"Value == 1", 5000, "Value == 1500"}, {"Value == 1", 5000, "Value == 15000"}, {"Value == 1", 50000, "Value == 15000"}, {"Value == 1", 50000, "Value == 150000"}, {"Value == 15", 0, "Value == 150"}, {"Value != 1", 1000000, "Value != 11000000"}, {"Value == 1500", 0, "Value == 1"}, {"Value == 1 ", 5000, "Value == 1 5000"}} {
 		var opts []bexpr.Option
 		if t.budget != 0 {
 			opts = append(opts, bexpr.WithMaxExpressions(t.budget))
 		}
-		exprObsOnce(t.first, d1, opts...)
+		if o, want := exprObsOnce(t.first, d1, opts...), exprObsOnce(strings.TrimSpace(t.first)+" ", d1); o != want && want != "NOCREATE" {
+			r.Violate("options-not-fixed-at-creation", "run-together-first|"+t.first, map[string]interface{}{"expression": t.first, "budget": t.budget}, "with the (sufficient) budget "+o+", the same text with a trailing blank and no budget "+want)
+		}
 		for _, d := range []interface{}{d1, d1500} {
 			o := exprObsOnce(t.second, d)
+			if want := exprObsOnce(" "+t.second, d); o != want && want != "NOCREATE" {
+				r.Violate("options-not-fixed-at-creation", "run-together|"+t.second, map[string]interface{}{"expression": t.second, "created_before": t.first, "budget_before": t.budget}, "after another evaluator was created with a budget: "+o+"; the same text with a leading blank: "+want)
+			}
 			// the reference: the same text in a process that never saw the first one is not available; the model is
 			c := evalCase{expr: t.second, d: d, tag: "bexpr"}
 			r.Evaluations++
@@ -445,6 +450,146 @@ func c03VeryLongChain(r *Run) {
 		r.Seen("very-long-chain|" + t.op)
 		if o != t.want {
 			r.Violate("short-circuit:"+t.op, "very-long-chain|"+t.op, map[string]interface{}{"expression": t.left + " " + t.op + " ( 33000 further terms that would error or decide otherwise )", "datum": describe(d)}, "expected "+t.want+" got "+o)
+		}
+	}
+}
+
+// ---- C01: every pattern of the pool against every string of the pool ----
+
+func c01RegexpCross(r *Run) {
+	subjects := append([]string{"webserver", "my-web", "a web b", "web", "cobweb", "xa.by", "a.b", "DEF", "def", "abc", "ABC", "x y", "x yz", "1.5", "11.5", "foo", "FOO", "food", "\n", "a\nb"}, strPool...)
+	pats := append([]string{"^web$", `\Aweb\z`, `^a\.b$`, "^def$", "(?i)^abc", "^DEF", "(?i)^abc|^DEF", `\Qa.b`, `\Qa.b\E$`}, patterns...)
+	for _, p := range pats {
+		for _, s := range subjects {
+			for _, d := range []interface{}{map[string]interface{}{"s": s}, map[string]interface{}{"s": []byte(s)}} {
+				for _, f := range []string{"s matches %s", "s not matches %s"} {
+					c := evalCase{expr: fmt.Sprintf(f, quoteDouble(p)), d: d, tag: "bexpr"}
+					if !c.parse() {
+						continue
+					}
+					addEval(r, &c, "regexp-cross")
+				}
+			}
+		}
+	}
+}
+
+// ---- C03: two `matches` on one selector side by side ----
+
+func c03MatchPairs(r *Run) {
+	pats := []string{"(?i)^abc", "^DEF", "^def", `\Qa`, "a|b", "(?s)^a.c", "(?m)^c$", "^abc$", "[", "(?i)x", ""}
+	subjects := []interface{}{"def", "DEF", "abc", "ABC", "a\nc", "x", "", 5, nil}
+	for _, p := range pats {
+		for _, q := range pats {
+			for _, s := range subjects {
+				d := map[string]interface{}{"s": s, "l": []interface{}{s, "abc"}}
+				for _, tpl := range []string{"s matches %s or s matches %s", "s not matches %s and s not matches %s", "s matches %s or s matches %s or s == zz", "any l as x { x matches %s or x matches %s }"} {
+					e := fmt.Sprintf(tpl, quoteDouble(p), quoteDouble(q))
+					c := evalCase{expr: e, d: d, tag: "bexpr"}
+					if !c.parse() {
+						continue
+					}
+					o := c.obs()
+					r.Evaluations++
+					r.Seen("match-pairs|" + tpl + "|" + p + "|" + q + "|" + o)
+					if !strings.HasPrefix(tpl, "any") && !strings.Contains(tpl, "zz") {
+						op, a1, b1 := "or", "s matches "+quoteDouble(p), "s matches "+quoteDouble(q)
+						if strings.Contains(tpl, " and ") {
+							op, a1, b1 = "and", "s not matches "+quoteDouble(p), "s not matches "+quoteDouble(q)
+						}
+						if want := table3(op, exprObs(a1, d), exprObs(b1, d)); o != want {
+							r.Violate("truth-table:"+op, "match-pairs|"+p+"|"+q, c.desc(), "operands alone give "+exprObs(a1, d)+", "+exprObs(b1, d)+": expected "+want+" got "+o)
+						}
+					}
+					r.Model(c.cmd(), o, c.desc())
+				}
+			}
+		}
+	}
+}
+
+// ---- C12: a crowd of deep evaluations ----
+
+func c12DeepCrowd(r *Run) {
+	var terms []string
+	for i := 0; i < 40; i++ {
+		terms = append(terms, fmt.Sprintf("( A == 1 or f%d == 1 )", i))
+	}
+	e := strings.Join(terms, " and ")
+	d := map[string]interface{}{"A": 1}
+	var parked int32
+	release := make(chan struct{})
+	hook := func(v reflect.Value) reflect.Value {
+		if atomic.AddInt32(&parked, 1) <= 600 {
+			<-release
+		}
+		return v
+	}
+	ev, err := bexpr.CreateEvaluator(e, bexpr.WithHookFn(hook))
+	if err != nil {
+		return
+	}
+	want := exprObs(e, d)
+	outs := make([]string, 600)
+	var wg sync.WaitGroup
+	for g := 0; g < 600; g++ {
+		wg.Add(1)
+		go func(g int) { defer wg.Done(); outs[g] = evalObs(ev, d) }(g)
+	}
+	for deadline := time.Now().Add(10 * time.Second); atomic.LoadInt32(&parked) < 600 && time.Now().Before(deadline); {
+		runtimeGosched()
+	}
+	close(release)
+	wg.Wait()
+	r.Evaluations += 600
+	r.Seen("deep-crowd")
+	for g, o := range outs {
+		if o != want {
+			r.Violate("concurrent-result-differs", "deep-crowd", map[string]interface{}{"expression": "40 parenthesised terms joined by and", "calls_in_flight": 600}, fmt.Sprintf("call %d of 600 simultaneous calls returned %s, alone %s", g, o, want))
+			break
+		}
+	}
+}
+
+// ---- C17: several elements fail, far apart: the error returned is the FIRST one's ----
+
+func c17FirstError(r *Run) {
+	for _, n := range []int{12, 300, 3000, 9000} {
+		for _, at := range [][3]int{{n * 7 / 30, n / 2, n * 23 / 30}, {n - 1, n / 2, n/2 + 1}, {n / 4, n/4 + 1, n - 1}} {
+			l := make([]interface{}, n)
+			for i := range l {
+				l[i] = map[string]interface{}{"X": "1.5"}
+			}
+			l[at[0]] = map[string]interface{}{"X": 7}
+			l[at[1]] = map[string]interface{}{"X": true}
+			l[at[2]] = map[string]interface{}{"X": uint(1)}
+			first := at[0]
+			for _, k := range at[1:] {
+				if k < first {
+					first = k
+				}
+			}
+			e := "X == 1.5"
+			flt, err := bexpr.CreateFilter(e)
+			ev, err2 := bexpr.CreateEvaluator(e)
+			if err != nil || err2 != nil {
+				return
+			}
+			_, wantErr := ev.Evaluate(l[first])
+			for rep := 0; rep < 6; rep++ {
+				res, gotErr := flt.Execute(l)
+				r.Evaluations++
+				c := map[string]interface{}{"expression": e, "elements": n, "failing_positions": at}
+				switch {
+				case gotErr == nil:
+					r.Violate("element-error-not-returned", fmt.Sprintf("first-error|%d", n), c, "no error although three elements fail")
+				case res != nil:
+					r.Violate("error-with-result", fmt.Sprintf("first-error|%d", n), c, "an error came with a non-nil result")
+				case wantErr != nil && gotErr.Error() != wantErr.Error():
+					r.Violate("not-the-first-error", fmt.Sprintf("first-error|%d", n), c, "Execute returned `"+truncate(gotErr.Error(), 120)+"`; the first failing element (position "+fmt.Sprint(first)+") fails with `"+truncate(wantErr.Error(), 120)+"`")
+				}
+			}
+			r.Seen(fmt.Sprintf("first-error|%d|%v", n, at))
 		}
 	}
 }
